@@ -114,6 +114,8 @@ class Gen(object):
         for idx in _np.ndindex(*shape):
             idxs[idx] = self._index(n)
         self._rng.choice_weights.append(p)
+        # what was chosen on this path (the harness may ask)
+        self._rng.choices.append(([a[i] for i in idxs.flat], p))
         return a[idxs]
 
     def integers(self, low, high=None, size=None, **k):
@@ -145,6 +147,7 @@ class RNG(object):
         self.draws = {}
         self.order = []
         self.choice_weights = []
+        self.choices = []
         self._anon = 0
         self.Generator = Gen
         self.global_gen = Gen(self, 'GLOBAL:unset')
